@@ -127,6 +127,19 @@ main(int argc, char** argv)
       continue;
     }
     if (!tree) { puts("bad-op"); continue; }
+    if (!strcmp(tok[0], "newfail")) {
+      // zix_tree_new while the allocator refuses the header: NULL, nothing kept
+      const size_t before = v_alloc_outstanding(&va);
+      va.fail_at = va.n_requests;
+      ZixTree* const t2 = zix_tree_new(&va.base, false, cmp, &cmp_tag, destroy, &destroy_tag);
+      va.fail_at = -1;
+      printf("newfail=%s", t2 ? "NON-NULL" : "NULL");
+      if (v_alloc_outstanding(&va) != before) printf(" SPEC-FAIL:failed-zix_tree_new-keeps-a-block");
+      if (t2) zix_tree_free(t2);
+      wb();
+      fputc('\n', stdout);
+      continue;
+    }
     if (!strcmp(tok[0], "insfail") && n == 2) {
       // insertion while the allocator refuses the node
       static long tmpkey;
